@@ -395,6 +395,55 @@ pub fn main(args: &Args) -> std::io::Result<()> {
         run_poly(&mut cx, &spec, k, "tangle", i % 400 == 0 || (args.thorough() && i % 200 == 0));
         k += 1;
     }
+    // rounded T-junctions: a vertex of one sub-path lies on an edge of another one up to f32 rounding (the point
+    // a + t (b - a) computed in f32: a few ulp on either side of the edge), from either side, any direction
+    let n_junction = if args.thorough() { 30000 } else { 4000 };
+    for i in 0..n_junction {
+        let r = &mut cx.rng;
+        let g = |r: &mut Rng| point(r.range(-12, 12) as f32, r.range(-12, 12) as f32);
+        let (a, b) = (g(r), g(r));
+        if (b - a).square_length() < 9.0 {
+            continue;
+        }
+        // the host polygon: a, b and two more lattice points on one side of a->b
+        let n = lyon_path::math::vector(-(b - a).y, (b - a).x).normalize();
+        let side = if r.chance(1, 2) { 1.0 } else { -1.0 };
+        let far = |r: &mut Rng, base: lyon_path::math::Point| {
+            let p = base + n * (side * (3.0 + r.below(8) as f32)) + (b - a).normalize() * (r.range(-3, 3) as f32);
+            point(p.x.round(), p.y.round())
+        };
+        let host = vec![a, b, far(r, b), far(r, a)];
+        // the guest: one or two vertices on the edge (rounded), the others on the other side
+        let t1 = 0.07 + 0.86 * r.unit_f64() as f32;
+        let v1 = a + (b - a) * t1;
+        let mut guest = vec![v1];
+        let away = |r: &mut Rng, base: lyon_path::math::Point| {
+            let p = base - n * (side * (2.0 + r.below(9) as f32)) + (b - a).normalize() * (r.range(-4, 4) as f32);
+            point(p.x.round() + if r.chance(1, 3) { 0.5 } else { 0.0 }, p.y.round())
+        };
+        guest.push(away(r, v1));
+        if r.chance(1, 2) {
+            guest.push(away(r, v1));
+        }
+        if r.chance(1, 3) {
+            let t2 = 0.07 + 0.86 * r.unit_f64() as f32;
+            guest.push(a + (b - a) * t2);
+        } else {
+            guest.push(away(r, v1));
+        }
+        let to_sub = |pts: &[lyon_path::math::Point], rev: bool| {
+            let mut v: Vec<_> = pts.to_vec();
+            if rev {
+                v.reverse();
+            }
+            Sub { start: v[0], start_attrs: vec![], segs: v[1..].iter().map(|p| Seg::Line(*p, vec![])).collect(), close: true }
+        };
+        let (rh, rg, first_guest) = (r.chance(1, 2), r.chance(1, 2), r.chance(1, 2));
+        let subs = if first_guest { vec![to_sub(&guest, rg), to_sub(&host, rh)] } else { vec![to_sub(&host, rh), to_sub(&guest, rg)] };
+        let spec = PathSpec { n_attr: 0, subs };
+        let k = 7000 + i;
+        run_poly(&mut cx, &spec, k, "rounded_junction", i % 100 == 0 || (args.thorough() && i % 50 == 0));
+    }
     // simple y-monotone polygons whose two chains meander over the whole width (long pending chains in the
     // monotone tessellator): right chain downwards, then left chain upwards; a transposed copy for the
     // horizontal sweep
